@@ -247,7 +247,9 @@ inductive Inner
   deriving DecidableEq, Repr
 
 /-- which handler a native call sits under, per platform / method / callee.
-    Source: the `try` statements of the five modules (line numbers in notes/C20.md). -/
+    Source: the `try` statements of the five modules (hand transcription; the translator pins the
+    list of methods that contain such a handler, `innerTry`, not the handler bodies — those are
+    tied by the differential run only). -/
 def inner (cfg : Cfg) (p : Platform) (meth call : String) : Inner :=
   match p with
   | .netbsd =>
@@ -458,6 +460,10 @@ def prefixMask (n : Nat) : Nat := (2 ^ 32 - 1) ^^^ (2 ^ (32 - n) - 1)
     = `int(network_address) | int(hostmask)` with `network_address = addr & netmask` -/
 def ipv4Broadcast (addr plen : Nat) : Nat := (addr &&& prefixMask plen) ||| (2 ^ (32 - plen) - 1)
 
+/-- the same on 128 bits: `ipaddress.IPv6Network(f"{addr}/{prefixlen}", strict=False).broadcast_address` -/
+def prefixMask6 (n : Nat) : Nat := (2 ^ 128 - 1) ^^^ (2 ^ (128 - n) - 1)
+def ipv6Broadcast (addr plen : Nat) : Nat := (addr &&& prefixMask6 plen) ||| (2 ^ (128 - plen) - 1)
+
 inductive AddrFam | inet | inet6 | link | other
   deriving DecidableEq, Repr
 
@@ -466,7 +472,7 @@ structure RawAddr where
   fam : AddrFam
   /-- AF_LINK: the MAC string; otherwise unused -/
   mac : List Char
-  /-- AF_INET: address, and prefix length when a netmask is present -/
+  /-- AF_INET / AF_INET6: address as a number, and prefix length when a netmask is present -/
   ip : Nat
   plen : Option Nat
   /-- broadcast as given by the native layer (None on Windows) -/
@@ -490,6 +496,15 @@ def netIfAddrsEntry (cfg : Cfg) (windows : Bool) (r : RawAddr) : OutAddr :=
     | some n =>
       if n ≤ 32 then
         (if cfg.broadcastAssigned then { nt with bcast := some (ipv4Broadcast r.ip n) } else nt)
+      else nt
+    | none => nt
+  else if windows && r.fam == .inet6 then
+    -- `_common.broadcast_addr`, AF_INET6 branch: the netmask is a prefix length (`IPv6Network` takes
+    -- nothing else; the real Windows native layer hands `None` for IPv6, then nothing happens)
+    match r.plen with
+    | some n =>
+      if n ≤ 128 then
+        (if cfg.broadcastAssigned then { nt with bcast := some (ipv6Broadcast r.ip n) } else nt)
       else nt
     | none => nt
   else nt
